@@ -93,3 +93,56 @@ def analyse(P: Project) -> WaitFacts:
     san, sout = run_paths(send.node, event_of=send_events, fallible=True)
     san.parents = A.exception_parents(P)
     return WaitFacts(send, wait, loop, recv_assign, an, out, f"{msg_var}·", wait_call, binding, san, sout, rp, wp, cancel_check)
+
+
+def deadline_problems(W: "WaitFacts") -> List[str]:
+    """Structural threats to the overall deadline: the wait not lexically inside
+    `with anyio.fail_after(<timeout parameter>)`, the parameter reassigned, the scope shielded, or the
+    scope object captured (`as scope`) and its deadline/shield rewritten or handed to other code."""
+    out: List[str] = []
+    send = W.send
+    if W.wait_call is None:
+        return ["the wait call was not found"]
+    withs = []
+
+    def rec(n, stack):
+        if n is W.wait_call:
+            withs.extend(stack)
+            return True
+        for c in ast.iter_child_nodes(n):
+            ns = stack + [n] if isinstance(n, (ast.With, ast.AsyncWith)) else stack
+            if rec(c, ns):
+                return True
+        return False
+
+    rec(send.node, [])
+    scope = None
+    for w in withs:
+        for it in w.items:
+            c = it.context_expr
+            if isinstance(c, ast.Call) and call_name(c) in ("anyio.fail_after", "fail_after"):
+                arg = ast.unparse(c.args[0]) if c.args else "<none>"
+                if arg != "timeout":
+                    out.append(f"deadline is `{arg}`, not the timeout parameter")
+                if any(k.arg == "shield" for k in c.keywords):
+                    out.append("the deadline scope is shielded")
+                scope = (w, it)
+    if scope is None:
+        out.append("the wait is not inside `with anyio.fail_after(timeout)`")
+        return out
+    if any(isinstance(n, ast.Name) and n.id == "timeout" and isinstance(n.ctx, ast.Store) for n in walk_local(send.node)):
+        out.append("the timeout parameter is reassigned")
+    w, it = scope
+    if it.optional_vars is not None and isinstance(it.optional_vars, ast.Name):
+        sv = it.optional_vars.id
+        for f in [send] + [W.wait] + ([W.cancel_check] if W.cancel_check else []):
+            pass
+        # any use of the captured scope: attribute store, or the name escaping into a closure/call
+        uses = []
+        for n in ast.walk(send.node):
+            if isinstance(n, ast.Attribute) and isinstance(n.value, ast.Name) and n.value.id == sv:
+                if isinstance(n.ctx, ast.Store) or n.attr in ("deadline", "shield", "reschedule", "cancel"):
+                    uses.append(f"line {n.lineno}: `{ast.unparse(n)}`" + (" assigned" if isinstance(n.ctx, ast.Store) else ""))
+        if uses:
+            out.append("the deadline scope is captured and manipulated (" + "; ".join(uses[:3]) + "): the overall deadline can be moved")
+    return out
